@@ -1,6 +1,6 @@
 SPECIFICATION Spec
 CONSTANTS
-  Keys <- KeysAT
+  Keys <- KeysA
   MsgRs <- MsgsAT
   Modes <- ModesMulti
   Depth = 1
